@@ -2,6 +2,9 @@
 
 The link-time ledger (malloc/realloc/free wrappers) watches histories of
 crypt_ra calls on a shared (*data, *size) pair from every start class."""
+import os
+import shutil
+
 from .. import common, facts, gen, pool, rt
 from ..pool import Death, Timeout
 
@@ -50,10 +53,18 @@ def requests(rng, n):
     return out
 
 
+# selections whose allocation paths differ: no default-capable method (crypt_gensalt_ra(NULL) must fail and
+# free), a single method, the traditional ones only
+CONFIGS = [("no-default", ["sha256crypt", "md5crypt", "descrypt"]), ("only-bcrypt", ["bcrypt"]),
+           ("only-descrypt", ["descrypt"]), ("no-default-2", ["sunmd5", "nt", "bsdicrypt", "bigcrypt"])]
+
+
 def do_histories(args):
-    seeds, steps = args
+    seeds, steps = args[:2]
+    exe = args[2] if len(args) > 2 else None
+    cfg = args[3] if len(args) > 3 else "all"
     acc = common.Acc()
-    w = rt.vw(FL)
+    w = pool.Worker(exe) if exe else rt.vw(FL)
     for hs in seeds:
         rng = rt.rng_for(hs, PID)
         cls = START_CLASSES[hs % len(START_CLASSES)]
@@ -78,10 +89,14 @@ def do_histories(args):
                 lines.append(l2)
                 meta.append(("start", c2))
             elif k < 0.2:
-                m = rng.choice(facts.GENSALT_METHODS + ["bcrypt_x"])
-                lines.append(rt.gensalt_line("ra", gen.TAG[m], rng.choice([0, 0, 1, 99]),
+                m = rng.choice(facts.GENSALT_METHODS + ["bcrypt_x", None, None])
+                lines.append(rt.gensalt_line("ra", gen.TAG[m] if m else None, rng.choice([0, 0, 1, 99]),
                                              facts.rbytes_pattern("rnd", 32, hs), rng.choice([32, 32, 1]), 192))
                 meta.append(("gra", m))
+        # the default-method spelling once per history, in every configuration
+        lines.append(rt.gensalt_line("ra", None, rng.choice([0, 0, 1, 5, 99]), facts.rbytes_pattern("rnd", 32, hs),
+                                     rng.choice([32, 32, 1]), 192))
+        meta.append(("gra", None))
         lines.append("rafree 2")
         meta.append(("final-free", None))
         rows = rt.run_resilient(w, setup, lines, stop_on_death=True)
@@ -144,8 +159,9 @@ def do_histories(args):
                 cur_after = "valid"     # whatever it was, the pair is now a valid one
                 cur = cur if not grew else cur_after
             elif mt[0] == "gra":
-                acc.cls(("gensalt_ra", mt[1], r["r"]))
+                acc.cls(("gensalt_ra", cfg, mt[1], r["r"]))
                 acc.count("gensalt_ra_calls")
+                acc.count("gensalt_ra/" + cfg)
                 if r["r"] == "A":
                     if r.get("blk") != "192" or r.get("own") != "L":
                         viol("gensalt-ra-block", "result is not a live 192-byte library block")
@@ -164,7 +180,24 @@ def do_histories(args):
                 viol("leak", "%d library-allocated blocks live (only *data may be)" % heap)
         if len(acc.samples) < 2:
             acc.sample({"start": cls, "lines": lines[:5]})
+    if exe:
+        w.stop()
     return acc
+
+
+def config_histories(args):
+    """the same histories on a build with another --enable-hashes selection"""
+    from . import C19
+    (name, en), seeds, steps = args
+    name, en, exe, err, _ = C19.build_config((PID + "-" + name, en))
+    if exe is None:
+        acc = common.Acc()
+        acc.inconc("configuration %s does not build: %s" % (name, err[-300:]))
+        return acc
+    try:
+        return do_histories((seeds, steps, exe, name[len(PID) + 1:]))
+    finally:
+        shutil.rmtree(os.path.dirname(exe), ignore_errors=True)
 
 
 def run(tier):
@@ -173,6 +206,13 @@ def run(tier):
     nh, steps = (512, 12) if tier == "quick" else (10000, 20)
     seeds = [run_.seed * 1000003 + i for i in range(nh)]
     for acc in pool.pmap(do_histories, [(ch, steps) for ch in pool.chunks(seeds, max(1, nh // 32))]):
+        run_.merge(acc)
+    nc = 24 if tier == "quick" else 400
+    cjobs = []
+    for ci, c in enumerate(CONFIGS):
+        cs = [run_.seed * 1000003 + 500000 + ci * 10000 + i for i in range(nc)]
+        cjobs.append((c, cs, steps))
+    for acc in pool.pmap(config_histories, cjobs):
         run_.merge(acc)
     a = run_.acc
     cov = {
@@ -183,6 +223,8 @@ def run(tier):
         "histories": int(a.n.get("histories", 0)),
         "grow_events": int(a.n.get("grow_events", 0)),
         "gensalt_ra_calls": int(a.n.get("gensalt_ra_calls", 0)),
+        "gensalt_ra_calls_per_configuration": {k[11:]: int(v) for k, v in a.n.items() if k.startswith("gensalt_ra/")},
+        "other_configurations": [c[0] + "=" + ",".join(c[1]) for c in CONFIGS],
         "start_class_x_outcome_pairs": len(a.sets.get("pairs", ())),
         "flavour": FL + " + ledger",
     }
